@@ -69,6 +69,12 @@ class BuilderSystem:
         return exc, chunks
 
 
+def with_debug_logging(system):
+    """The same system, every call made with the library's loggers at DEBUG."""
+    system.debug_log = True
+    return system
+
+
 def run_configs(level, configs, tier, seed, rule, assumptions, snapshot_check=True):
     """configs: list of (label, system, depth, max_states). Builds a Result."""
     res = Result(level)
